@@ -109,8 +109,23 @@ def run(ctx, report):
           "underline among others": read_({"tts:textDecoration": "noOverline underline"})}
     negd = {str(a): read_(a) for a in ({"tts:fontStyle": "normal"}, {"tts:fontWeight": "normal"}, {"tts:textDecoration": "none"},
                                       {"tts:fontStyle": "bold"}, {"tts:fontWeight": "italic"}, {"tts:color": "italic"})}
+    # the whole TTML vocabulary of the three attributes (TTML 1, 8.2.9 / 8.2.10 / 8.2.20): every value and every pair of
+    # text-decoration tokens
+    import itertools
+    deco = ("none", "underline", "noUnderline", "lineThrough", "noLineThrough", "overline", "noOverline")
+    for toks in list(itertools.permutations(deco, 1)) + list(itertools.permutations(deco, 2)):
+        v = " ".join(toks)
+        r_ = read_({"tts:textDecoration": v})
+        if bool(r_.get("underline")) != ("underline" in toks) or r_.get("italics") or r_.get("bold"):
+            negd[f"tts:textDecoration={v!r}"] = dict(r_, **{"<required underline>": "underline" in toks})
+            rb["underline"] = None
+    for v in ("normal", "oblique", "reverseOblique", "Italic "):
+        r_ = read_({"tts:fontStyle": v})
+        if any(r_.get(k) for k in STYLES):
+            negd[f"tts:fontStyle={v!r}"] = dict(r_, **{"<required>": "no style"})
+            rb["underline"] = None
     ok_pos = rb["bold"] == {"bold": True} and rb["underline"] == {"underline": True} and rb["underline among others"] == {"underline": True}
-    ok_neg = all(not any(v.get(k) for k in STYLES) for v in negd.values())
+    ok_neg = all(not any(v.get(k) for k in STYLES) for k_, v in negd.items() if not k_.startswith("tts:"))
     report.check(ok_pos and ok_neg, "R-TABLE-REF", dr, "DFXP reader: tts:fontStyle=italic / fontWeight=bold / textDecoration~underline "
                  "and nothing else switch a style on", {"positive": rb, "negative": negd}, "1")
     pairs = {"font-family": "tts:fontFamily", "font-size": "tts:fontSize", "color": "tts:color", "text-align": "tts:textAlign"}
